@@ -461,6 +461,33 @@ def check_catalogue(res, f, label, yml, me, genome):
             got = set(al.func_muts) | set(mi.neutral_muts)
             if got != keep:
                 bad("C09.R6", f"{tag}: partial {mn} carries {sorted(got)}, retained variants of {parent_minor} are {sorted(keep)}")
+    # (f2) a fused structure named by a bare left fusion is expanded: every parent allele of the default structure has a candidate
+    #      on the fused structure that carries exactly the parent's core variants in the retained regions
+    default_cfgs = {c for c, k in me.cn_configs.items() if k.kind == CT.DEFAULT}
+    first_of = {}
+    for n, a in db.items():
+        if a["struct"] and a["struct"][0][1].endswith("-"):
+            first_of.setdefault((a["struct"][0][0], a["struct"][0][1]), n)
+    for key, n in first_of.items():
+        if n not in bare_left:
+            continue   # the structure is named by an allele with core variants of its own: expansion is left open by the statement
+        fus = next((c for c in (n, n.split(".")[0]) if c in me.cn_configs and me.cn_configs[c].kind == CT.LEFT_FUSION), None)
+        if fus is None:
+            continue
+        conf = me.cn_configs[fus]
+        have = {frozenset(al.func_muts) for mj, al in me.alleles.items() if al.cn_config == fus and "#" in mj}
+        for mj, al in me.alleles.items():
+            if al.cn_config not in default_cfgs or "#" in mj:
+                continue
+            kept = set()
+            for m in al.func_muts:
+                rg = me.region_at(m.pos)
+                if rg and conf.cn[rg[0]][rg[1]] > 0:
+                    kept.add(m)
+            if frozenset(kept) not in have:
+                bad("C09.R6", f"{tag}: fused structure {fus} (bare left fusion {n}) has no candidate allele for parent {mj} "
+                              f"with its retained core variants {sorted(kept)}")
+                break
     return problems, me
 
 
@@ -531,6 +558,8 @@ def run(repo, res):
 MUTANTS = [
     dict(name="R5 configurations keyed by the main-gene vector only (seeded X9_2 shape)", module="common", expect=["C09.R1", "C09.R5"],
          old="    a = tuple(i[1] for i in sorted(x[0].items()))\n    if len(x) > 1:\n        a += tuple(i[1] for i in sorted(x[1].items()))\n    return a", new="    return tuple(i[1] for i in sorted(x[0].items()))"),
+    dict(name="R6 a sibling with core variants stops the expansion of a bare left fusion (seed C09_e1)", module="gene", expect="C09.R6",
+         old="            if len(self.alleles[f].func_muts) > 0:\n", new="            if any(len(a.func_muts) > 0 for a in self.alleles.values() if a.cn_config == f):\n"),
     dict(name="R5 second allele of a shared left-fusion configuration falls back to the default structure", module="gene", expect="C09.R5",
          old="                inverse_cn[key] = a\n            else:\n                self.cn_configs[inverse_cn[key]].alleles.add(a)\n        # Deletion is a special kind of left fusion",
          new="                inverse_cn[key] = a\n            else:\n                pass\n        # Deletion is a special kind of left fusion"),
